@@ -96,6 +96,9 @@ fn policies(s: &AccessStructure) -> Vec<AccessPolicy> {
             if a < b {
                 v.push(AccessPolicy::Term(a.clone()) & AccessPolicy::Term(b.clone()));
                 v.push(AccessPolicy::Term(a.clone()) | AccessPolicy::Term(b.clone()));
+                // a conjunction that is a sub-conjunction of another one
+                v.push(AccessPolicy::Term(a.clone()) | (AccessPolicy::Term(a.clone()) & AccessPolicy::Term(b.clone())));
+                v.push((AccessPolicy::Term(a.clone()) & AccessPolicy::Term(b.clone())) | AccessPolicy::Term(b.clone()));
                 for c in &at {
                     if b < c {
                         v.push((AccessPolicy::Term(a.clone()) & AccessPolicy::Term(b.clone())) | AccessPolicy::Term(c.clone()));
